@@ -762,6 +762,61 @@ class DriverRules:
                         rec.ob('R15.b', 'R15.b@%s::live-counter-zero' % fkey(f), okl, '%s:%s' % (f['file'], f['line']),
                                'T=%d: live counter is %s when %s returns' % (T, show(lv) if lv else '?', f['name']))
         rec.count('R15.a operation exits', n, 3)
+        # R15.m: what the singleton allocates for one operation is released with it: every member that one of its methods sets
+        #        to a new[] allocation is the operand of a delete in its destructor (or the member is a smart pointer / container)
+        if A is not None:
+            G = A.G
+            news, dels = {}, set()
+            for m_ in G['methods']:
+                g_ = self.prog.functions.get(m_['id'])
+                if g_ is None or g_.get('body') is None:
+                    continue
+                for n_ in walk(g_['body']):
+                    if n_['k'] == 'BinaryOperator' and n_.get('op') == '=' and strip(n_['rhs']).get('k') == 'CXXNewExpr':
+                        l_ = strip(n_['lhs'])
+                        if l_.get('k') == 'MemberExpr' and l_.get('d'):
+                            news[l_['d'][2:]] = nloc(n_)
+            # the destructor and the member functions it calls (transitively)
+            dtor = next((self.prog.functions.get(m_['id']) for m_ in G['methods'] if m_['n'].startswith('~') and m_['id'] in self.prog.functions), None)
+            todo_, seen_ = [dtor] if dtor else [], set()
+            while todo_:
+                g_ = todo_.pop()
+                if g_ is None or g_['id'] in seen_ or g_.get('body') is None:
+                    continue
+                seen_.add(g_['id'])
+                for n_ in walk(g_['body']):
+                    if n_['k'] == 'CXXDeleteExpr':
+                        e_ = strip(n_.get('e') or {})
+                        if e_.get('k') == 'MemberExpr' and e_.get('d'):
+                            dels.add(e_['d'][2:])
+                    if n_['k'] in ('CXXMemberCallExpr', 'CallExpr'):
+                        c_ = self.prog.functions.get((n_.get('callee') or {}).get('m'))
+                        if c_ is not None and c_.get('rec') == G['q']:
+                            todo_.append(c_)
+            for fld_, wh_ in sorted(news.items()):
+                rec.ob('R15.m', 'R15.m@%s::allocation-released-with-the-singleton::%s' % (A.Gq, fld_.split('::')[-1]), fld_ in dels, wh_,
+                       'member %s is set to a new[] allocation here; the destructor of %s %s it' % (fld_, A.Gq, 'deletes' if fld_ in dels else 'does NOT delete'))
+            rec.ob('R15.m', 'R15.m@%s::allocations-released-with-the-singleton' % A.Gq, all(f_ in dels for f_ in news), G['file'],
+                   '%d member(s) of %s hold per-operation allocations; operands of delete in its destructor: %s' % (len(news), A.Gq, sorted(x.split('::')[-1] for x in dels)))
+        # R15.k: every path of every operation has closed both streams it was given (a stream left open is a descriptor the
+        # process never gets back: enough failing operations and an ordinary one cannot open its files any more)
+        for op in ('encrypt', 'decrypt', 'verify'):
+            f = D.ops[op]
+            bad_k = {}
+            npath = 0
+            for T in self.Ts[:2]:
+                I, out = self.run(op, T)
+                for s, v in out:
+                    npath += 1
+                    closed = {e[1] for e in accesses(s, kinds=('CLOSE',))}
+                    missing = sorted({'fin', 'out'} - closed)
+                    if missing:
+                        bad_k.setdefault(tuple(missing), (T, show(v), [str(x) for x in s.trace[-6:]]))
+            for missing, (T, rv, path) in sorted(bad_k.items()):
+                rec.ob('R15.k', 'R15.k@%s::streams-closed-on-every-path::%s' % (fkey(f), '+'.join(missing)), False, '%s:%s' % (f['file'], f['line']),
+                       'T=%d: %s returns %s on a path that has not closed %s' % (T, f['name'], rv, ' and '.join('the input' if m == 'fin' else 'the output' for m in missing)), path=path)
+            rec.ob('R15.k', 'R15.k@%s::streams-closed-on-every-path' % fkey(f), not bad_k, '%s:%s' % (f['file'], f['line']),
+                   '%s: both streams are closed on each of %d abstract paths (a failing fclose included)' % (op, npath))
         # R15.h: no operation writes the objects its caller owns and will hand to the next operation (key buffer, settings)
         bad = set()
         for T in self.Ts[:2]:
